@@ -807,7 +807,7 @@ fn main() {
     }
     // ESOP lists of n = 4 with 2..3 outputs (n = 3 with 3): XORs of a few minterms (far apart, so that one output is
     // cheapest as the XOR of full minterms another output pays for), sparse and random functions
-    let edense = if thorough { 1500 } else { 12 };
+    let edense = if thorough { 300 } else { 12 };
     for k in 0..edense {
         let n = if k % 5 == 0 { 3 } else { 4 };
         let outs = if n == 3 { 3 } else if thorough { 2 + k % 2 } else { 2 };
